@@ -1,1 +1,108 @@
-fn main(){}
+// ax2coq: translate the instruction-semantics part of xarantolus/ax (Rust) into
+// Gallina definitions over the run-time library AxV.Rt / AxV.Mem.
+//
+// usage: ax2coq <repo> <outdir>
+//
+// The supported Rust subset is what src/instructions/*.rs, helpers/macros.rs,
+// helpers/operand.rs, state/flags.rs, state/registers.rs and auto/generated.rs
+// use.  Anything else is reported as `ax2coq: <file>:<line>: <what>` and the
+// function concerned is emitted as a stub so that the problem is localised.
+mod mac;
+mod tr;
+
+use std::collections::BTreeMap;
+use std::fs;
+use std::path::{Path, PathBuf};
+
+fn main() {
+    let args: Vec<String> = std::env::args().collect();
+    if args.len() < 3 {
+        eprintln!("usage: ax2coq <repo> <outdir>");
+        std::process::exit(2);
+    }
+    let repo = PathBuf::from(&args[1]);
+    let out = PathBuf::from(&args[2]);
+    fs::create_dir_all(&out).unwrap();
+
+    let mut t = tr::Translator::new();
+    let src = repo.join("src");
+
+    // order matters: signatures are collected from all files first
+    let mut files: Vec<(String, PathBuf)> = vec![
+        ("Flags".into(), src.join("state/flags.rs")),
+        ("Regs".into(), src.join("state/registers.rs")),
+        ("Operand".into(), src.join("helpers/operand.rs")),
+        ("Helpers".into(), src.join("helpers/macros.rs")),
+    ];
+    let mut instr_files: Vec<PathBuf> = fs::read_dir(src.join("instructions"))
+        .unwrap()
+        .map(|e| e.unwrap().path())
+        .filter(|p| {
+            let n = p.file_name().unwrap().to_str().unwrap().to_string();
+            n.ends_with(".rs") && n != "mod.rs" && n != "integration_tests.rs"
+        })
+        .collect();
+    instr_files.sort();
+    for p in &instr_files {
+        let stem = p.file_stem().unwrap().to_str().unwrap();
+        files.push((format!("I_{}", stem), p.clone()));
+    }
+    files.push(("Dispatch".into(), src.join("auto/generated.rs")));
+
+    let mut parsed: Vec<(String, PathBuf, syn::File)> = Vec::new();
+    for (m, p) in &files {
+        let text = fs::read_to_string(p).unwrap_or_else(|e| panic!("read {:?}: {}", p, e));
+        match syn::parse_file(&text) {
+            Ok(f) => parsed.push((m.clone(), p.clone(), f)),
+            Err(e) => {
+                println!("ax2coq: {}: parse error: {}", p.display(), e);
+                std::process::exit(1);
+            }
+        }
+    }
+    for (_, p, f) in &parsed {
+        t.collect(rel(&repo, p), f);
+    }
+    let mut manifest: BTreeMap<String, Vec<(String, usize, usize, bool)>> = BTreeMap::new();
+    let mut problems = 0usize;
+    let mut instr_mods = Vec::new();
+    for (m, p, f) in &parsed {
+        let (text, defs, nprob) = t.translate_file(m, rel(&repo, p), f);
+        problems += nprob;
+        fs::write(out.join(format!("{}.v", m)), text).unwrap();
+        manifest.insert(m.clone(), defs);
+        if m.starts_with("I_") {
+            instr_mods.push(m.clone());
+        }
+    }
+    // manifest
+    let mut mf = String::from("{\n");
+    let mut first = true;
+    for (m, defs) in &manifest {
+        for (name, l0, l1, ok) in defs {
+            if !first {
+                mf.push_str(",\n");
+            }
+            first = false;
+            mf.push_str(&format!(
+                " \"{}\": {{\"module\": \"{}\", \"line_start\": {}, \"line_end\": {}, \"translated\": {}}}",
+                name, m, l0, l1, ok
+            ));
+        }
+    }
+    mf.push_str("\n}\n");
+    fs::write(out.join("manifest.json"), mf).unwrap();
+    // file list for _CoqProject
+    let mut order: Vec<String> = vec!["Flags".into(), "Regs".into(), "Operand".into(), "Helpers".into()];
+    order.extend(instr_mods.iter().cloned());
+    order.push("Dispatch".into());
+    fs::write(out.join("modules.txt"), order.join("\n") + "\n").unwrap();
+    for p in &t.problems {
+        println!("ax2coq: {}", p);
+    }
+    println!("ax2coq: {} definitions, {} problems", manifest.values().map(|v| v.len()).sum::<usize>(), problems);
+}
+
+fn rel<'a>(repo: &Path, p: &'a Path) -> String {
+    p.strip_prefix(repo).unwrap_or(p).display().to_string()
+}
